@@ -380,7 +380,8 @@ def _build_bitmap_font_dictionary(font_dictionary, pdf, font, widths, compress, 
     font_dictionary['FontBBox'] = pydyf.Array([0, 0, 1, 1])
     font_dictionary['FontMatrix'] = pydyf.Array([1, 0, 0, 1, 0, 0])
     if subset:
-        chars = tuple(sorted(font.cmap))
+        # Avoid empty sequence when no glyph is displayed
+        chars = tuple(sorted(font.cmap)) or (0,)
     else:
         chars = tuple(range(256))
     first, last = chars[0], chars[-1]
